@@ -371,7 +371,7 @@ def run(tier, seed, only=None):
                                 continue
                         elif ai > 0 and fi > 1:
                             continue
-                        items.append({"card": card, "strat": st, "flags": fl, "angles": an, "seed": seed, "depth": 3 if tier == "quick" else 5})
+                        items.append({"card": card, "strat": st, "flags": fl, "angles": an, "seed": seed, "depth": 3 if tier == "quick" else 4})
         # chain selections as part of the automaton state: 3-chain card and the 4-chain card whose (B,C) resonances are
         # declared non-contiguously, every strategy, eager and traced
         for ci, card in enumerate(cards):
